@@ -160,6 +160,20 @@ func c11Items(seed int64, tier string) []*c11Item {
 			id++
 		}
 	}
+	// the execute list names an invocation more than once (adjacent and separated repeats)
+	for k := 0; k < 3; k++ {
+		b, _ := c11Base(seed, id)
+		switch k {
+		case 0:
+			b.Invs = append(b.Invs, b.Invs[0])
+		case 1:
+			b.Invs = append([]string{b.Invs[0]}, b.Invs...)
+		case 2:
+			b.Invs = append(append([]string{}, b.Invs...), b.Invs...)
+		}
+		items = append(items, &c11Item{Kind: "batch", Label: fmt.Sprintf("repeated-invocation-links-%d", k), Batch: b})
+		id++
+	}
 	// a signed token whose issuer is the undefined DID
 	{
 		b, _ := c11Base(seed, id)
@@ -284,6 +298,8 @@ func c11Child(args []string) int {
 	return 0
 }
 
+const c11ItemTimeout = 45 * time.Second
+
 func init() {
 	extraCmds["c11child"] = c11Child
 	gens["C11"] = func(o genOpts) error {
@@ -310,9 +326,13 @@ func init() {
 			last := -1
 			finished := false
 			timer := time.AfterFunc(20*time.Minute, func() { cmd.Process.Kill() })
+			// a request that is never answered is as bad as a crash: no item may take longer than this
+			hung := false
+			watch := time.AfterFunc(c11ItemTimeout, func() { hung = true; cmd.Process.Kill() })
 			sc := bufio.NewScanner(stdout)
 			sc.Buffer(make([]byte, 1<<20), 1<<24)
 			for sc.Scan() {
+				watch.Reset(c11ItemTimeout)
 				line := sc.Text()
 				switch {
 				case strings.HasPrefix(line, "START "):
@@ -328,6 +348,7 @@ func init() {
 			}
 			err := cmd.Wait()
 			timer.Stop()
+			watch.Stop()
 			if finished {
 				break
 			}
@@ -340,6 +361,10 @@ func init() {
 				return fmt.Errorf("c11 child failed before the first item: %v %s", err, lg)
 			}
 			c := crash{Item: last, Label: items[last].Label, Log: lg, Kind: items[last].Kind}
+			if hung {
+				c.Kind = "hang"
+				c.Log = fmt.Sprintf("the server did not answer the request within %s (the process was killed); ", c11ItemTimeout) + lg
+			}
 			if items[last].Kind == "raw" {
 				c.Hex = fmt.Sprintf("%x", items[last].Raw)
 			}
